@@ -119,7 +119,7 @@ def run(ctx, R, parts=('S', 'R', 'B')):
 
 
 # Iterator methods whose result is a function of the item sequence and that a base-case comparison can decide
-DECIDABLE_OVERRIDES = ('count', 'last')
+DECIDABLE_OVERRIDES = ('count', 'last', 'fold')
 IGNORED_OVERRIDES = ('size_hint',)        # only a capacity hint: no item, order or termination depends on it
 
 
@@ -168,9 +168,14 @@ def overrides(ctx, R, rule='C11.O'):
                 seq = [T.adt_field(first, '0')]           # an error item ends the walk (C11.R)
             else:
                 continue
-            exp = I(len(seq)) if name == 'count' else (SOME(seq[-1]) if seq else NONE)
+            if name == 'fold':
+                # provided fold: init when there is no item, f(init, item) for one item (the supplied function's first application on the path)
+                init, fv = P(ctx, pm, 1), P(ctx, pm, 2)
+                exp = init if not seq else ('call', 'apply#0', (fv, init, seq[0]))
+            else:
+                exp = I(len(seq)) if name == 'count' else (SOME(seq[-1]) if seq else NONE)
             try:
-                evm, mouts = ctx.entry(pm, assume=assume)
+                evm, mouts = ctx.entry(pm, assume=assume, symbolic_fns=(name == 'fold'))
             except Exception:
                 mouts = None
             if not mouts:
